@@ -36,7 +36,7 @@ m = {
                  "kind_free_text": "Lean 4 proofs (lean/Bpp) about an executable model (lean/Model, native driver) + Rust harness driving the real library over a free-module group and Ristretto with an instrumented merlin"}],
     "checks": checks,
     "not_applicable": [{"property_id": i, "reason": NOT_CLAIMED.get(i, "check not built yet in this round; planned in DESIGN.md §8")} for i in ids if i not in PROPS],
-    "notes": "fix: commits in /repo: e4bc4a5 (C03 chunk loop), 4f759bf (C20 seed copy). Known findings: KNOWN_FINDINGS.txt.",
+    "notes": "fix: commits in /repo: e4bc4a5 (C03 chunk loop), 4f759bf (C20 seed copy), 81701bf (C05 promise list length). Known findings: KNOWN_FINDINGS.txt.",
 }
 json.dump(m, open(os.path.join(VERIF, "MANIFEST.json"), "w"), indent=1)
 print("claimed:", [c["property_id"] for c in checks])
